@@ -602,9 +602,23 @@ func isBlank(e ast.Expr) bool {
 }
 
 func (r *rewriter) rewriteRangeMap(c *astutil.Cursor, n *ast.RangeStmt) {
+	var hoisted ast.Stmt
 	if !pure(n.X) {
-		r.fail(n, "range over map expression that is not a plain identifier/selector")
-		return
+		// the range expression is evaluated once: bind it to a fresh variable in an enclosing block
+		if _, labeled := c.Parent().(*ast.LabeledStmt); labeled {
+			r.fail(n, "labeled range over a map expression that is not a plain identifier/selector")
+			return
+		}
+		mv := ast.NewIdent(r.name("m"))
+		hoisted = &ast.AssignStmt{Lhs: []ast.Expr{mv}, Tok: token.DEFINE, Rhs: []ast.Expr{n.X}}
+		n.X = mv
+	}
+	if hoisted != nil {
+		defer func() {
+			if r.err == nil {
+				c.Replace(&ast.BlockStmt{List: []ast.Stmt{hoisted, n}})
+			}
+		}()
 	}
 	vm := r.use("vmap")
 	keys := call(sel(vm, "Keys"), n.X)
